@@ -385,8 +385,13 @@ func (c *ClientConn) Close() error {
 
 // SendDisconnectは、Disconnectメッセージを送信します。
 func (c *ClientConn) SendDisconnect(ctx context.Context, msg *message.Disconnect) error {
-	// bounded by the contexts like the write of a request: a transport that is redialling, or a peer that
-	// stopped reading, keeps the write waiting (closing the transport, which the caller does next, releases it)
+	// (closing the transport, which the caller does next, releases a write that is still waiting)
+	return c.boundedWrite(ctx, msg)
+}
+
+// boundedWrite writes msg, bounded by the contexts like the write of a request: a transport that is redialling, or
+// a peer that stopped reading, keeps a write waiting for as long as it likes.
+func (c *ClientConn) boundedWrite(ctx context.Context, msg message.Message) error {
 	written := make(chan error, 1)
 	go func() { written <- writeErr(c.transport.Write(msg)) }()
 	select {
@@ -708,12 +713,12 @@ func (c *ClientConn) SendDownstreamDataPointsAck(ctx context.Context, ack *messa
 
 // SendDownstreamMetadataAckは、DownstreamMetadataAckを送信します。
 func (c *ClientConn) SendDownstreamMetadataAck(ctx context.Context, ack *message.DownstreamMetadataAck) error {
-	return writeErr(c.transport.Write(ack))
+	return c.boundedWrite(ctx, ack)
 }
 
 // SendUpstreamCallは、UpstreamCallを送信します。
 func (c *ClientConn) SendUpstreamCall(ctx context.Context, call *message.UpstreamCall) error {
-	return writeErr(c.transport.Write(call))
+	return c.boundedWrite(ctx, call)
 }
 
 // ReceiveUpstreamCallAckは、UpstreamCallAckを待ち受けます。
